@@ -31,6 +31,12 @@ unsigned int get_rex_prefix(struct instr *all_instr, struct operand *m,
                             struct operand *r);
 
 /**
+ * applies the (nasm-style or strict) handling of a memory operand @param m
+ * that has an index but no base register given an instance of @param instrc
+ */
+void sib_no_base(struct instr *instrc, struct operand *m);
+
+/**
  * returns the register opcode given the operand at @param m and @param r
  * position given and instance of @param instrc
  */
